@@ -4,6 +4,7 @@ use serde_json::Value as J;
 
 use crate::core::{replay_report, Ctx, Failure};
 
+pub mod c01;
 pub mod c02;
 pub mod c03;
 pub mod c04;
@@ -25,6 +26,7 @@ pub mod c20;
 
 pub fn run(ctx: &Ctx) -> i32 {
     match ctx.prop {
+        "C01" => c01::run(ctx),
         "C02" => c02::run(ctx),
         "C03" => c03::run(ctx),
         "C04" => c04::run(ctx),
@@ -52,6 +54,7 @@ pub fn run(ctx: &Ctx) -> i32 {
 
 pub fn replay(prop: &'static str, path: &str) -> i32 {
     let f: Box<dyn Fn(&J) -> Vec<Failure>> = match prop {
+        "C01" => Box::new(c01::replay),
         "C02" => Box::new(c02::replay),
         "C03" => Box::new(c03::replay),
         "C04" => Box::new(c04::replay),
